@@ -1039,3 +1039,35 @@ Proof.
   intros b n H. cbn [repeat ws_run_ok forallb]. rewrite H. cbn [andb].
   induction n as [|n IH]; cbn [repeat forallb]; [reflexivity|]. rewrite H. exact IH.
 Qed.
+
+(* ------------------------------------------------------------------ comment CONTENT
+   [wf_layout] asks of a comment only that its text contains no LF / CR ([sep_elem_ok], and the same for the
+   last, unterminated comment [l_tail]); the bytes are otherwise arbitrary (any Z: `[`, `]#`, quotes, braces,
+   backslashes, NUL, keywords, multi-byte sequences ...).  Stated on their own: *)
+
+(* a comment line with ANY text in front of a program changes nothing *)
+Theorem comment_text_is_layout : forall v ts l body nl,
+  forallb tk_ok ts = true -> wf_layout ts l = true -> separating ts l = true ->
+  forallb (fun b => negb (is_nl b)) body = true -> is_nl nl = true ->
+  lex_view v (35%Z :: body ++ nl :: render ts l) = Some (map tk_tok ts).
+Proof.
+  intros v ts l body nl Hok Hwf Hsep Hb Hn.
+  pose (l' := {| l_lead := SComment body nl :: l_lead l; l_slots := l_slots l; l_tail := l_tail l |}).
+  assert (E : render ts l' = 35%Z :: body ++ nl :: render ts l).
+  { unfold render, l'. cbn [l_lead l_slots l_tail sep_text sep_elem_text app].
+    rewrite <- !app_assoc. reflexivity. }
+  rewrite <- E. apply lex_render; [assumption| |exact Hsep].
+  unfold wf_layout in *. unfold l'. cbn [l_lead l_slots l_tail forallb sep_elem_ok].
+  bsplit. rewrite Hb, Hn, H, H1, H0. reflexivity.
+Qed.
+
+(* a comment with ANY text that runs to the end of the input is no token either *)
+Theorem comment_to_end_of_input : forall v body,
+  forallb (fun b => negb (is_nl b)) body = true -> lex_view v (35%Z :: body) = Some [].
+Proof.
+  intros v body Hb.
+  pose (l := {| l_lead := []; l_slots := []; l_tail := Some body |}).
+  change (35%Z :: body) with (render [] l). change (@nil (tok * bytes * bool)) with (map tk_tok []).
+  apply lex_render; [reflexivity| |reflexivity].
+  unfold wf_layout, l. cbn [l_lead l_slots l_tail forallb slots_ok andb]. exact Hb.
+Qed.
